@@ -285,10 +285,10 @@ theorem hfb_mid {t : Tracker} {blk : Nat × Nat} {t' : Tracker} {ev : Event}
              highest := max blk.1 t.highest, first := t.first }, ⟨rfl, low1, sp1⟩, rfl⟩
 
 theorem markFastFinalized_mid {t : Tracker} {blk : Nat × Nat} {t' : Tracker} {ev : Event}
-    (h : markFastFinalized t blk = .ok t' ev) : ∃ m, MidEv t m ev ∧ (t' = m ∨ t' = prune m) := by
+    (h : markFastFinalized t blk = .ok t' ev) : ∃ m, MidEv t m ev ∧ ((t' = m ∧ ev = {}) ∨ t' = prune m) := by
   simp only [markFastFinalized] at h
   split at h
-  · cases h; exact ⟨_, MidEv.same t, Or.inl rfl⟩
+  · cases h; exact ⟨_, MidEv.same t, Or.inl ⟨rfl, rfl⟩⟩
   rename_i hlow
   have hw : t.first ≤ blk.1 := by omega
   split at h
@@ -297,14 +297,14 @@ theorem markFastFinalized_mid {t : Tracker} {blk : Nat × Nat} {t' : Tracker} {e
     · rename_i heq
       cases h
       refine ⟨_, midEv_set_same hw (fun _ => ⟨rfl, by rw [hst, heq]⟩) (fun _ => by rw [hst]; exact dec_some.mpr rfl),
-        Or.inl rfl⟩
+        Or.inl ⟨rfl, rfl⟩⟩
     · cases h
   · rename_i hh hst
     split at h
     · rename_i heq
       cases h
       refine ⟨_, midEv_set_same hw (fun _ => ⟨rfl, by rw [hst, heq]; rfl⟩)
-        (fun _ => by rw [hst]; exact dec_some.mpr rfl), Or.inl rfl⟩
+        (fun _ => by rw [hst]; exact dec_some.mpr rfl), Or.inl ⟨rfl, rfl⟩⟩
     · cases h
   · rename_i hh hst
     split at h
@@ -320,10 +320,10 @@ theorem markFastFinalized_mid {t : Tracker} {blk : Nat × Nat} {t' : Tracker} {e
     exact ⟨m, a, Or.inr b⟩
 
 theorem markNotarized_mid {t : Tracker} {blk : Nat × Nat} {t' : Tracker} {ev : Event}
-    (h : markNotarized t blk = .ok t' ev) : ∃ m, MidEv t m ev ∧ (t' = m ∨ t' = prune m) := by
+    (h : markNotarized t blk = .ok t' ev) : ∃ m, MidEv t m ev ∧ ((t' = m ∧ ev = {}) ∨ t' = prune m) := by
   simp only [markNotarized] at h
   split at h
-  · cases h; exact ⟨_, MidEv.same t, Or.inl rfl⟩
+  · cases h; exact ⟨_, MidEv.same t, Or.inl ⟨rfl, rfl⟩⟩
   rename_i hlow
   have hw : t.first ≤ blk.1 := by omega
   have hund : ∀ {v : Status}, ¬ Dec (t.status blk.1) → v.decided = false →
@@ -333,28 +333,28 @@ theorem markNotarized_mid {t : Tracker} {blk : Nat × Nat} {t' : Tracker} {ev : 
   split at h
   · rename_i hst
     cases h
-    exact ⟨_, hund (by rw [hst]; exact not_dec_none) rfl, Or.inl rfl⟩
+    exact ⟨_, hund (by rw [hst]; exact not_dec_none) rfl, Or.inl ⟨rfl, rfl⟩⟩
   · rename_i hh hst
     split at h
     · cases h
-      exact ⟨_, hund (by rw [hst]; simp [dec_some, Status.decided]) rfl, Or.inl rfl⟩
+      exact ⟨_, hund (by rw [hst]; simp [dec_some, Status.decided]) rfl, Or.inl ⟨rfl, rfl⟩⟩
     · cases h
   · split at h
-    · cases h; exact ⟨_, MidEv.same t, Or.inl rfl⟩
+    · cases h; exact ⟨_, MidEv.same t, Or.inl ⟨rfl, rfl⟩⟩
     · cases h
   · split at h
-    · cases h; exact ⟨_, MidEv.same t, Or.inl rfl⟩
+    · cases h; exact ⟨_, MidEv.same t, Or.inl ⟨rfl, rfl⟩⟩
     · cases h
-  · cases h; exact ⟨_, MidEv.same t, Or.inl rfl⟩
+  · cases h; exact ⟨_, MidEv.same t, Or.inl ⟨rfl, rfl⟩⟩
   · rename_i hst
     obtain ⟨m, a, b⟩ := hfb_mid (by rw [hst]; simp [dec_some, Status.decided]) hw h
     exact ⟨m, a, Or.inr b⟩
 
 theorem markFinalized_mid {t : Tracker} {slot : Nat} {t' : Tracker} {ev : Event}
-    (h : markFinalized t slot = .ok t' ev) : ∃ m, MidEv t m ev ∧ (t' = m ∨ t' = prune m) := by
+    (h : markFinalized t slot = .ok t' ev) : ∃ m, MidEv t m ev ∧ ((t' = m ∧ ev = {}) ∨ t' = prune m) := by
   simp only [markFinalized] at h
   split at h
-  · cases h; exact ⟨_, MidEv.same t, Or.inl rfl⟩
+  · cases h; exact ⟨_, MidEv.same t, Or.inl ⟨rfl, rfl⟩⟩
   rename_i hlow
   have hw : t.first ≤ slot := by omega
   have hund : ∀ {v : Status}, ¬ Dec (t.status slot) → v.decided = false →
@@ -364,27 +364,27 @@ theorem markFinalized_mid {t : Tracker} {slot : Nat} {t' : Tracker} {ev : Event}
   split at h
   · rename_i hst
     cases h
-    exact ⟨_, hund (by rw [hst]; exact not_dec_none) rfl, Or.inl rfl⟩
+    exact ⟨_, hund (by rw [hst]; exact not_dec_none) rfl, Or.inl ⟨rfl, rfl⟩⟩
   · rename_i hst
     cases h
-    exact ⟨_, hund (by rw [hst]; simp [dec_some, Status.decided]) rfl, Or.inl rfl⟩
-  · cases h; exact ⟨_, MidEv.same t, Or.inl rfl⟩
-  · cases h; exact ⟨_, MidEv.same t, Or.inl rfl⟩
+    exact ⟨_, hund (by rw [hst]; simp [dec_some, Status.decided]) rfl, Or.inl ⟨rfl, rfl⟩⟩
+  · cases h; exact ⟨_, MidEv.same t, Or.inl ⟨rfl, rfl⟩⟩
+  · cases h; exact ⟨_, MidEv.same t, Or.inl ⟨rfl, rfl⟩⟩
   · rename_i hh hst
     obtain ⟨m, a, b⟩ := hfb_mid (blk := (slot, hh)) (by rw [hst]; simp [dec_some, Status.decided]) hw h
     exact ⟨m, a, Or.inr b⟩
   · cases h
 
 theorem addParent_mid {t : Tracker} {blk par : Nat × Nat} {t' : Tracker} {ev : Event}
-    (h : addParent t blk par = .ok t' ev) : ∃ m, MidEv t m ev ∧ (t' = m ∨ t' = prune m) := by
+    (h : addParent t blk par = .ok t' ev) : ∃ m, MidEv t m ev ∧ ((t' = m ∧ ev = {}) ∨ t' = prune m) := by
   simp only [addParent] at h
   split at h
   · cases h
   split at h
-  · cases h; exact ⟨_, MidEv.same t, Or.inl rfl⟩
+  · cases h; exact ⟨_, MidEv.same t, Or.inl ⟨rfl, rfl⟩⟩
   split at h
   · split at h
-    · cases h; exact ⟨_, MidEv.same t, Or.inl rfl⟩
+    · cases h; exact ⟨_, MidEv.same t, Or.inl ⟨rfl, rfl⟩⟩
     · cases h
   have hsame : MidEv t { t with parents := setPar t.parents blk par } {} :=
     ⟨rfl, fun _ _ => rfl, EvSpec.refl _⟩
@@ -394,7 +394,7 @@ theorem addParent_mid {t : Tracker} {blk par : Nat × Nat} {t' : Tracker} {ev : 
         | some (t2, ev) => Res.ok (prune t2) ev
         | none => Res.panic
        else Res.ok { t with parents := setPar t.parents blk par } {}) = .ok t' ev →
-      ∃ m, MidEv t m ev ∧ (t' = m ∨ t' = prune m) := by
+      ∃ m, MidEv t m ev ∧ ((t' = m ∧ ev = {}) ∨ t' = prune m) := by
     intro hh hr
     split at hr
     · split at hr
@@ -415,14 +415,14 @@ theorem addParent_mid {t : Tracker} {blk par : Nat × Nat} {t' : Tracker} {ev : 
           rw [hF, hS]
           exact sp2
       · cases hr
-    · cases hr; exact ⟨_, hsame, Or.inl rfl⟩
+    · cases hr; exact ⟨_, hsame, Or.inl ⟨rfl, rfl⟩⟩
   split at h
   · exact hfin _ h
   · exact hfin _ h
-  · cases h; exact ⟨_, hsame, Or.inl rfl⟩
+  · cases h; exact ⟨_, hsame, Or.inl ⟨rfl, rfl⟩⟩
 
 theorem step_mid {t : Tracker} {op : Op} {t' : Tracker} {ev : Event}
-    (h : step t op = .ok t' ev) : ∃ m, MidEv t m ev ∧ (t' = m ∨ t' = prune m) := by
+    (h : step t op = .ok t' ev) : ∃ m, MidEv t m ev ∧ ((t' = m ∧ ev = {}) ∨ t' = prune m) := by
   cases op with
   | parent b p => exact addParent_mid h
   | fastFinal b => exact markFastFinalized_mid h
